@@ -179,6 +179,38 @@ pub mod distance;
 pub mod distr;
 pub mod tree;
 
+/// Verification hooks (only compiled with `--cfg phylotree_verif`): a seedable RNG
+/// replacing `thread_rng()` and access to the crate-private triangular index functions.
+#[cfg(phylotree_verif)]
+pub mod verif_hooks {
+    use rand::{rngs::StdRng, SeedableRng};
+    use std::cell::Cell;
+
+    thread_local! {
+        static SEED: Cell<u64> = Cell::new(0);
+    }
+
+    /// Sets the seed used by the next random operation on this thread
+    pub fn set_seed(seed: u64) {
+        SEED.with(|s| s.set(seed))
+    }
+
+    /// Returns a deterministic RNG built from the current seed
+    pub fn rng() -> StdRng {
+        StdRng::seed_from_u64(SEED.with(|s| s.get()))
+    }
+
+    /// Exposes [`crate::distance::tril_to_rowvec_index`]
+    pub fn tril_to_rowvec_index(size: usize, i: usize, j: usize) -> usize {
+        crate::distance::tril_to_rowvec_index(size, i, j)
+    }
+
+    /// Exposes [`crate::distance::rowvec_to_tril_index`]
+    pub fn rowvec_to_tril_index(size: usize, k: usize) -> (usize, usize) {
+        crate::distance::rowvec_to_tril_index(size, k)
+    }
+}
+
 // type Error = Box<dyn std::error::Error>;
 // type Result<T> = std::result::Result<T, Error>;
 
@@ -203,7 +235,10 @@ pub fn generate_tree(
     // Add root
     tree.add(Node::default());
 
+    #[cfg(not(phylotree_verif))]
     let mut rng = thread_rng();
+    #[cfg(phylotree_verif)]
+    let mut rng = verif_hooks::rng();
 
     let sampler = Sampler::new(sampler_type);
 
@@ -248,7 +283,10 @@ pub fn generate_yule(
     let mut tree = Tree::new();
     let root = tree.add(Node::default());
 
+    #[cfg(not(phylotree_verif))]
     let mut rng = thread_rng();
+    #[cfg(phylotree_verif)]
+    let mut rng = verif_hooks::rng();
     let sampler = Sampler::new(sampler_type);
 
     let mut parent_candidates = vec![root];
@@ -290,7 +328,10 @@ pub fn generate_caterpillar(
     let mut tree = Tree::new();
     tree.add(Node::default());
 
+    #[cfg(not(phylotree_verif))]
     let mut rng = thread_rng();
+    #[cfg(phylotree_verif)]
+    let mut rng = verif_hooks::rng();
     let sampler = Sampler::new(sampler_type);
 
     let mut parent = 0;
